@@ -530,6 +530,15 @@ func (x *Exec) applyContract(p *Path, site ssa.Instruction, fc *FuncContract, ca
 			// the callee hands over an object it has just created: it is not shared yet
 			e.allocated[res[0].S] = true
 			p.nonnil[res[0].S] = true
+			if pt, ok := res[0].T.Underlying().(*types.Pointer); ok {
+				if _, isStruct := pt.Elem().Underlying().(*types.Struct); isStruct {
+					if p.private == nil {
+						p.private = map[string]string{}
+					}
+					p.private[res[0].S] = typeKey(pt.Elem())
+					e.note("an object a callee returns as fresh is not kept by the callee: it stays private to the caller until the caller passes it on")
+				}
+			}
 		}
 	}
 	p.events = append(p.events, Event{Key: key, Args: evArgs, Res: res})
